@@ -316,6 +316,24 @@ def relativize (n origin : Name) : Except NameErr Name :=
 def derelativize (n origin : Name) : Except NameErr Name :=
   if !isAbs n then concatenate n origin else .ok n
 
+/-- `Name.choose_relativity(origin, relativize)`: `if origin:` — `None` and the empty name leave the name alone -/
+def chooseRelativity (n : Name) (origin : Option Name) (rel : Bool) : Except NameErr Name :=
+  match origin with
+  | none => .ok n
+  | some o => if o = [] then .ok n else if rel then relativize n o else derelativize n o
+
+/-- `to_text(omit_final_dot=True)`: the root label of an absolute non-root name is not printed -/
+def toTextOmit (n : Name) : List Nat :=
+  if n = [] then [64]
+  else if n = [[]] then [46]
+  else joinDot ((if isAbs n then n.dropLast else n).map escapify)
+
+/-- `Name.to_styled_text(NameStyle(omit_final_dot, origin, relativize))` without an IDNA codec -/
+def toStyledText (n : Name) (omitDot : Bool) (origin : Option Name) (rel : Bool) : Except NameErr (List Nat) :=
+  match chooseRelativity n origin rel with
+  | .error e => .error e
+  | .ok m => .ok (if omitDot then toTextOmit m else toText m)
+
 def parent (n : Name) : Except NameErr Name :=
   if nameEq n [[]] ∨ nameEq n [] then .error .noParent else validate (n.drop 1)
 
